@@ -1163,6 +1163,22 @@ func scanDeterminism(l *factsLoader, dirs []string) (sites []rangeSite, cons []c
 							}
 						}
 					case *ast.CallExpr:
+						// default formatting of a value into a string that is not an error text: `fmt.Sprint(v)` / `%v` of a struct with
+						// pointer or interface fields prints heap addresses (events, attributes, keys built this way differ between nodes)
+						if se, ok := x.Fun.(*ast.SelectorExpr); ok {
+							if id, ok := se.X.(*ast.Ident); ok && id.Name == "fmt" {
+								switch se.Sel.Name {
+								case "Sprint", "Sprintln":
+									cons = append(cons, construct{"pointer-format", rel, fnName, normText(l.fset, x)})
+								case "Sprintf":
+									if len(x.Args) > 0 {
+										if bl, ok := x.Args[0].(*ast.BasicLit); ok && (strings.Contains(bl.Value, "%v") || strings.Contains(bl.Value, "%+v") || strings.Contains(bl.Value, "%#v")) {
+											cons = append(cons, construct{"pointer-format", rel, fnName, normText(l.fset, x)})
+										}
+									}
+								}
+							}
+						}
 						if fd != nil {
 							if se, ok := x.Fun.(*ast.SelectorExpr); ok && (strings.HasSuffix(se.Sel.Name, "Mut") || se.Sel.Name == "SetInt64" || se.Sel.Name == "SetUint64") && sharedSrc(se.X) {
 								cons = append(cons, construct{"shared-mutation", rel, fnName, normText(l.fset, x.Fun)})
